@@ -4,11 +4,12 @@ From V.C13 Require Import Model.
 (* an operation commits the response when it writes body bytes or is terminal *)
 Definition commits (o : op) : bool :=
   match o with
-  | OWrite _ | OHTML _ | OJSON _ | ORedirect _ _ | ONoContent _ | OWriteHeader _ => true
+  | OWrite _ | OHTML _ | OJSON _ | ORedirect _ _ | ONoContent _ | OWriteHeader _
+  | OHTMLWith _ _ | OFormatted _ _ => true
   | _ => false
   end.
 Definition body_of (o : op) : string :=
-  match o with OWrite p | OHTML p | OJSON p => p | _ => "" end.
+  match o with OWrite p | OHTML p | OJSON p | OHTMLWith p _ | OFormatted _ p => p | _ => "" end.
 
 (* status and headers accumulated by the calls made before the commit point *)
 Definition pre_step (sh : Z * hdrs) (o : op) : Z * hdrs :=
@@ -28,6 +29,8 @@ Definition commit_step (sh : Z * hdrs) (o : op) : Z * hdrs :=
   | ORedirect u c => (c, hset "Location" u h)
   | ONoContent c => (c, h)
   | OWriteHeader c => (c, h)
+  | OHTMLWith _ c => (c, hset "Content-Type" ct_html h)
+  | OFormatted c _ => (c, hset "Content-Type" ct_json h)
   | _ => sh
   end.
 
